@@ -503,7 +503,7 @@ func main() {
 					// inherited from the original: one class per cause
 					cause := d.Proj + "|" + d.Option
 					switch {
-					case d.Option == "towgs84-7":
+					case strings.Contains(d.Option, "towgs84-7") && d.Option != "towgs84-7-rotation-only":
 						cause = "7-parameter-datum-hop-through-WGS84"
 					case d.Option == "sphere" && (d.Proj == "tmerc" || d.Proj == "utm"):
 						cause = "spherical-transverse-mercator-ignores-false-origin"
